@@ -37,6 +37,39 @@ func scenFinal(out *scenOut, r *rng, thorough bool) {
 		updates := []int{1, 2, 5, 20}[r.intn(4)]
 		finalGated(out, fps, updates, r.intn(2), r.chance(1, 2))
 	}
+	for _, u := range []int{2, 5} {
+		finalReleased(out, u, r.intn(2))
+	}
+}
+
+// finalReleased: the program quits while its terminal is released (ReleaseTerminal without a
+// RestoreTerminal: the renderer has already been stopped once); the updates that arrived
+// meanwhile must still be on screen when Run returns.
+func finalReleased(out *scenOut, updates, shape int) {
+	ctl := newRecCtl()
+	buf := &safeBuffer{}
+	ctl.viewOf = func(version, ups int) string { return finalView(shape, ups-1) } // (-1: the size message)
+	desc := fmt.Sprintf("quit-while-released updates=%d shape=%d", updates, shape)
+	run := startProgram(ctl, buf, tea.WithInput(nil), tea.WithoutSignalHandler(), tea.WithFPS(120))
+	run.p.Send(tea.WindowSizeMsg{Width: 80, Height: 24})
+	run.p.Send(userMsg{0, 0})
+	waitFor(2*time.Second, func() bool { return strings.Contains(buf.String(), "count 1") })
+	if err := run.p.ReleaseTerminal(); err != nil {
+		out.record(desc+" (release failed: "+err.Error()+")", "released-none")
+		run.p.Kill()
+		run.wait(3 * time.Second)
+		return
+	}
+	for k := 1; k < updates; k++ {
+		run.p.Send(userMsg{0, k})
+	}
+	run.p.Quit()
+	if !run.wait(8 * time.Second) {
+		out.fail(finding{Property: "C07", Class: "new", What: "Run did not return after quit", Input: desc})
+		return
+	}
+	out.record(desc, fmt.Sprintf("released updates=%d shape=%d", updates, shape))
+	checkFinalScreen(out, desc, buf.String(), finalView(shape, updates), 80, 24)
 }
 
 // gateBuf holds the first write that contains `mark` until released.
@@ -70,7 +103,7 @@ func (g *gateBuf) Write(p []byte) (int, error) {
 func finalGated(out *scenOut, fps, updates, shape int, quitCmd bool) {
 	ctl := newRecCtl()
 	buf := &safeBuffer{}
-	ctl.viewOf = func(version, ups int) string { return finalView(shape, ups) }
+	ctl.viewOf = func(version, ups int) string { return finalView(shape, ups-1) } // (-1: the size message)
 	ctl.onUpdate = func(m tea.Msg, v int) tea.Cmd {
 		if u, ok := m.(userMsg); ok && quitCmd && u.Sender == 0 && u.Seq == updates-1 {
 			return tea.Quit
@@ -78,7 +111,7 @@ func finalGated(out *scenOut, fps, updates, shape int, quitCmd bool) {
 		return nil
 	}
 	desc := fmt.Sprintf("gated-writer fps=%d updates=%d shape=%d quit-by-command=%t", fps, updates, shape, quitCmd)
-	w := &gateBuf{b: buf, mark: "count 0", entered: make(chan struct{}), release: make(chan struct{})}
+	w := &gateBuf{b: buf, mark: "count -1", entered: make(chan struct{}), release: make(chan struct{})}
 	p := tea.NewProgram(recModel{c: ctl}, tea.WithInput(nil), tea.WithoutSignalHandler(), tea.WithFPS(fps), tea.WithOutput(w))
 	run := &progRun{p: p, ctl: ctl, out: buf, done: make(chan struct{})}
 	go func() { defer close(run.done); run.model, run.err = p.Run() }()
@@ -92,6 +125,7 @@ func finalGated(out *scenOut, fps, updates, shape int, quitCmd bool) {
 		return
 	}
 	go func() {
+		run.p.Send(tea.WindowSizeMsg{Width: 80, Height: 24}) // a terminal has a size
 		for k := 0; k < updates; k++ {
 			run.p.Send(userMsg{0, k})
 		}
